@@ -261,6 +261,10 @@ def deductive(rep: Report, tier):
     run_case(rep, P, EG + "quaternion_eigendecomposition", "guard_nonhermitian", setup_e, raises, lib=mk_e(False), contracts=econ, loop_rules=conv_rules(), clauses=["raises_ValueError"])
     run_case(rep, P, EG + "quaternion_eigendecomposition", "guard_nonsquare", setup_ns, raises, lib=mk_e(True), contracts=econ, loop_rules=conv_rules(), clauses=["raises_ValueError"])
 
+    # the Hermitian guard comes before every shortcut: a 1x1 matrix with a non-real entry is not Hermitian and is rejected like any other
+    run_case(rep, P, EG + "quaternion_eigendecomposition", "guard_nonhermitian_1x1", lambda I, ctx: ([ix.input_array("A", [1, 1], quat=True)], {}, None), raises,
+             lib=mk_e(False), contracts=econ, loop_rules=conv_rules(), clauses=["raises_ValueError"])
+
     def setup_1(I, ctx):
         a = SReal.var("a")
         A = ix.IArr.from_fn([1, 1], lambda vi: real_q(a), quat=True)
